@@ -45,6 +45,9 @@ LEVEL = 'exploration'
 EPS = float(np.finfo(float).eps)
 FACTORS = (0.0, 1e-6, 1e-3, 0.1, 1.0, 1e2)
 TIMES = (0.0, 0.1)
+# call histories on ONE instance: a solve with factor f followed by a solve with a factor close to, but not equal to, f
+# (a step-size controller that has settled produces exactly such sequences); the second solve is judged like any other
+TWINS = (('x(1+2.5e-6)', lambda f: f * (1 + 2.5e-6)), ('x(1-3e-7)', lambda f: f * (1 - 3e-7)), ('+5e-9', lambda f: f + 5e-9), ('x(1+4eps)', lambda f: f * (1 + 2.0**-50)))
 C_ROUND = 1e3  # rounding floor: C_ROUND * eps * (magnitude of the terms of the residual)
 C_CONF = 10.0  # a solver may stop anywhere below its configured tolerance: err <= C_CONF * configured is accepted
 C_KRY = 20.0  # scipy cg/gmres test the recurrence residual, not the true one
@@ -711,11 +714,17 @@ def _term_scale(cname, prob, part, u, t, linear, Jcache):
     return float(np.max(np.abs(J) @ np.abs(flat(u))) + np.max(np.abs(f0), initial=0.0))
 
 
-def run_solve_case(acc, cname, prob, method, part, spec, mask, states, rhss, si, ri, ti, fi_, Jcache, pids):
+def run_solve_case(acc, cname, prob, method, part, spec, mask, states, rhss, si, ri, ti, fi_, Jcache, pids, twin=None):
     sname, state = states[si]
     rname, rhs0 = rhss[ri]
     t, factor = TIMES[ti], FACTORS[fi_]
     case = {'kind': 'solve', 'class': cname, 'variant': acc.label, 'method': method, 'state': sname, 'rhs': rname, 't': t, 'factor': factor, 'patterns': list(pids)}
+    if twin is not None:
+        # history: solve with FACTORS[fi_] (judged elsewhere), then with the nearby factor on the same instance
+        call_guarded(acc, getattr(prob, method), clone(rhs0), factor, clone(state), t)
+        factor = dict(TWINS)[twin](factor)
+        case.update(factor=factor, after_solve_with=FACTORS[fi_], twin=twin)
+        acc.count('solve_after_nearby_factor')
     rhs, guess = clone(rhs0), clone(state)
     before = [snap(rhs), snap(guess)]
     acc.evals += 1
@@ -819,6 +828,10 @@ def _run_variant(acc, cname, label, params, pids, tier='thorough'):
                 for ti in range(len(TIMES)):
                     for fi_ in range(len(FACTORS)):
                         run_solve_case(acc, cname, prob, method, part, spec, mask, states, rhss, si, ri, ti, fi_, Jcache, pids)
+            if si == 0:
+                for fi_ in range(len(FACTORS)):
+                    for twin, _ in TWINS:
+                        run_solve_case(acc, cname, prob, method, part, spec, mask, states, rhss, 0, 1, 0, fi_, Jcache, pids, twin=twin)
 
     # ---- (e) closed-form u_exact ----------------------------------------------------------------------
     cf = R.CLOSED_FORM.get(cname)
@@ -1259,5 +1272,8 @@ def replay(rep, case):
     si = names.index(case['state'])
     rhss = [('state', states[si][1]), ('pattern', with_values(states[si][1], rpat))]
     ri = [n for n, _ in rhss].index(case['rhs'])
-    run_solve_case(acc, cname, prob, method, part, spec, mask, states, rhss, si, ri, TIMES.index(case['t']), FACTORS.index(case['factor']), {}, pids)
+    if case.get('twin'):
+        run_solve_case(acc, cname, prob, method, part, spec, mask, states, rhss, si, ri, TIMES.index(case['t']), FACTORS.index(case['after_solve_with']), {}, pids, twin=case['twin'])
+    else:
+        run_solve_case(acc, cname, prob, method, part, spec, mask, states, rhss, si, ri, TIMES.index(case['t']), FACTORS.index(case['factor']), {}, pids)
     flush(acc)
